@@ -7,6 +7,7 @@ non-verifying command types, remote units with and without signwork, a unit of a
 the TCP control listener and a mesh stream from a second daemon, with real JWTs, and decides from before/after
 snapshots whether the command took effect.
 """
+import concurrent.futures as cf
 import os
 import vlib
 import vctl_common
@@ -18,38 +19,43 @@ def run(tier, seed, replay=None):
     pid = "C15"
     wd = vctl_common.run_dir(pid)
     v = vlib.Verdict(pid, tier, seed)
-    r = vlib.tlc_must_pass(SPEC, "ControlSession_c15.cfg", wd, workers=1, timeout=600)
-    wit = [] if replay else vlib.witnesses(SPEC, "ControlSession_c15.cfg", ["W15_NoRefusal"] if tier == "quick" else ["W15_NoRemoteEffect", "W15_NoUnixBypass", "W15_NoRefusal"], wd, workers=1)
-    # the token life-cycle: one token used again while time passes (and after a restart); a verifier that remembers tokens must be refuted
-    rq = vlib.tlc_must_pass(SPEC, "ControlSession_c15seq.cfg", wd, workers=2, timeout=600)
-    seqs = os.path.join(rq.dir, "c15seq.ndjson")
-    nseq = sum(1 for _ in open(seqs))
-    if not replay:
-        for cname, label in (("ControlSession_c15seq_cache.cfg", "VerifierRemembersTokens"), ("ControlSession_c15seq_carry.cfg", "ConnectionRemembersToken")):
+    quick = tier == "quick"
+    inst = 1 if quick else 2
+    with cf.ThreadPoolExecutor(max_workers=4) as ex:
+        # the two exports first (in parallel), then the harness runs while TLC refutes the two short-cuts and finds the witnesses
+        f1 = ex.submit(vlib.tlc_must_pass, SPEC, "ControlSession_c15.cfg", wd, 1, 600)
+        f2 = ex.submit(vlib.tlc_must_pass, SPEC, "ControlSession_c15seq.cfg", wd, 2, 600)
+        r, rq = f1.result(), f2.result()
+        vectors, seqs = os.path.join(r.dir, "c15.ndjson"), os.path.join(rq.dir, "c15seq.ndjson")
+        nvec, nseq = sum(1 for _ in open(vectors)), sum(1 for _ in open(seqs))
+        if nvec != r.distinct:
+            raise vlib.Inconclusive("vector file has %d lines but TLC found %d distinct states" % (nvec, r.distinct))
+        vctl = vlib.build_harness("vctl")
+        args = ["c15", "-vectors", vectors, "-receptor", vctl_common.receptor_copy(wd), "-work", wd, "-seed", str(seed), "-instances", str(inst), "-seqs", seqs]
+        if quick:
+            # seeded stratified subset: one rotating token class in every (command, connection, work type) cell, plus valid and
+            # absent in the cells the property protects; the quick selection of sequences
+            args += ["-subset", "1"]
+        else:
+            args += ["-seqall"]
+        if replay:
+            args += ["-replay", replay]
+        fh = ex.submit(vlib.harness_json, vctl, args, wd, 3000)
+
+        def _refute(cname, label):
             rc = vlib.tlc(SPEC, cname, wd, workers=1, timeout=600)
             if rc.violated != "NoEffectWithoutTokenSeq":
                 raise vlib.Inconclusive("the model with %s did not violate NoEffectWithoutTokenSeq: exit %s\n%s" % (label, rc.exit, rc.output[-1200:]))
-            wit.append(label + " refuted")
-        if tier != "quick":
-            wit += vlib.witnesses(SPEC, "ControlSession_c15seq.cfg", ["W15Seq_NoReplayRefused", "W15Seq_NoTokenlessFollowUp"], wd, workers=1)
-    vectors = os.path.join(r.dir, "c15.ndjson")
-    nvec = sum(1 for _ in open(vectors))
-    if nvec != r.distinct:
-        raise vlib.Inconclusive("vector file has %d lines but TLC found %d distinct states" % (nvec, r.distinct))
-    vctl = vlib.build_harness("vctl")
-    quick = tier == "quick"
-    inst = 1 if quick else 2
-    args = ["c15", "-vectors", vectors, "-receptor", vctl_common.receptor_copy(wd), "-work", wd, "-seed", str(seed), "-instances", str(inst)]
-    args += ["-seqs", seqs]
-    if not quick:
-        args += ["-seqall"]
-    if quick:
-        # seeded stratified subset: two rotating token classes in every (command, connection, work type) cell, plus valid and
-        # absent in the cells the property protects
-        args += ["-subset", "1"]
-    if replay:
-        args += ["-replay", replay]
-    res = vlib.harness_json(vctl, args, wd, timeout=3000)
+            return label + " refuted"
+
+        fr, fw = [], []
+        if not replay:
+            fr = [ex.submit(_refute, "ControlSession_c15seq_cache.cfg", "VerifierRemembersTokens"), ex.submit(_refute, "ControlSession_c15seq_carry.cfg", "ConnectionRemembersToken")]
+            fw = [ex.submit(vlib.witnesses, SPEC, "ControlSession_c15.cfg", ["W15_NoRefusal"] if quick else ["W15_NoRemoteEffect", "W15_NoUnixBypass", "W15_NoRefusal"], wd, 300, 1)]
+            if not quick:
+                fw.append(ex.submit(vlib.witnesses, SPEC, "ControlSession_c15seq.cfg", ["W15Seq_NoReplayRefused", "W15Seq_NoTokenlessFollowUp"], wd, 300, 1))
+        res = fh.result()
+        wit = [x for f in fw for x in f.result()] + [f.result() for f in fr]
     for viol in res["violations"]:
         v.violation(viol["sig"], viol["what"], viol["replay"])
     if res.get("inconclusive") and not v.violations:
